@@ -839,6 +839,11 @@ type c11cCase struct {
 	// is what the caller's own first lookup reads), otherwise it is read by a re-establisher
 	Rows []c11MetaRow `json:"rows,omitempty"`
 	Cold bool         `json:"cold,omitempty"`
+	// CacheRegions: the malformed answers are (also) what a whole-table lookup (Client.CacheRegions) reads
+	CacheRegions bool `json:"cache_regions,omitempty"`
+	// TableLens (kind metacorrupt): additional info:regioninfo values that are well-formed region infos of the
+	// right range naming a table of that many bytes ('x' repeated; 1 = the wrong table "x")
+	TableLens []int `json:"table_lens,omitempty"`
 }
 
 type c11MetaRow struct {
@@ -920,7 +925,8 @@ func c11cIncInBubble(c c11cCase) (out Outcome) {
 }
 
 func c11cMetaInBubble(c c11cCase) (out Outcome) {
-	l := layoutSpec{Table: "t", NServers: 2}
+	// (two regions: a whole-table lookup reads rows of regions the cache does not know yet)
+	l := layoutSpec{Table: "t", NServers: 2, Bounds: []evid.B{evid.B("m")}}
 	cl := l.build()
 	client := newSimClient(cl)
 	defer func() {
@@ -942,6 +948,12 @@ func c11cMetaInBubble(c c11cCase) (out Outcome) {
 	for _, b := range c.Infos {
 		cl.MetaCorrupt = append(cl.MetaCorrupt, append([]byte{}, b...))
 	}
+	for _, n := range c.TableLens {
+		ri := &pb.RegionInfo{RegionId: proto.Uint64(1000), TableName: &pb.TableName{Namespace: []byte("default"), Qualifier: bytes.Repeat([]byte{'x'}, n)},
+			Offline: proto.Bool(false), Split: proto.Bool(false)}
+		b, _ := proto.Marshal(ri)
+		cl.MetaCorrupt = append(cl.MetaCorrupt, append([]byte("PBUF"), b...))
+	}
 	for _, r := range c.Rows {
 		var e sim.MetaRowEdit
 		if r.HasKey {
@@ -955,6 +967,17 @@ func c11cMetaInBubble(c c11cCase) (out Outcome) {
 	cl.Unlock()
 	ctx, cancel := context.WithTimeout(context.Background(), 10*time.Minute)
 	defer cancel()
+	if c.CacheRegions {
+		// (it has no context: it ends with the regions, with TableNotFound, or when the client is closed)
+		crDone := make(chan error, 1)
+		go func() { crDone <- client.CacheRegions([]byte("t")) }()
+		select {
+		case <-crDone:
+		case <-time.After(10 * time.Minute):
+			return viol("lookup-never-recovers", "CacheRegions was still running 10 virtual minutes after hbase:meta started serving sane rows again")
+		}
+		out.Labels = append(out.Labels, "via_CacheRegions")
+	}
 	// (a panic of a background goroutine of the client ends the process: the driver turns that into a
 	// finding from the journal)
 	err, cerr := doOp(client, ctx, "t", opSpec{Kind: "get", Key: evid.B("row"), Marker: "mksecond"})
@@ -987,7 +1010,7 @@ func TestC11_ClientDecoders(t *testing.T) {
 			"answer carries a counter cell of 0..12 bytes (8 is well-formed) - error, never a panic; (b) the real scanner against the "+
 			"model server of C06 which additionally sends zero-cell partial results ahead of a row's first fragment (structurally valid, "+
 			"inconsistent with the data) and/or scan metrics nobody asked for - the C06 oracle still holds and nothing panics; (c) a region in use has to be re-established and "+
-			"hbase:meta serves 1..3 malformed info:regioninfo values (empty, 1..3 bytes, wrong magic, garbage protobuf) before sane ones - "+
+			"hbase:meta serves 1..3 malformed info:regioninfo values (empty, 1..3 bytes, wrong magic, garbage protobuf, or well-formed ones naming another table / a table name of up to 70000 bytes) before sane ones, read by a request's lookup or by CacheRegions - "+
 			"no goroutine of the client panics and the request recovers or fails, it does not hang; (d) the same with hbase:meta rows whose row key (the "+
 			"region's name: empty, without its separators, equal to a lookup's search key, raw bytes) and/or info:server value is malformed while "+
 			"info:regioninfo is sound, read by a re-establisher or by the caller's own first lookup. Non-trivial = every case except the "+
@@ -995,7 +1018,7 @@ func TestC11_ClientDecoders(t *testing.T) {
 	Drive(t, rec, true, func(t *rapid.T) c11cCase {
 		switch rapid.IntRange(0, 7).Draw(t, "what") {
 		case 6, 7:
-			c := c11cCase{Kind: "metarow", Cold: rapid.Bool().Draw(t, "cold")}
+			c := c11cCase{Kind: "metarow", Cold: rapid.Bool().Draw(t, "cold"), CacheRegions: rapid.IntRange(0, 2).Draw(t, "cacheregions") == 0}
 			n := rapid.IntRange(1, 3).Draw(t, "nrows")
 			for i := 0; i < n; i++ {
 				var r c11MetaRow
@@ -1043,7 +1066,17 @@ func TestC11_ClientDecoders(t *testing.T) {
 		case 0:
 			return c11cCase{Kind: "increment", IncLen: rapid.IntRange(0, 12).Draw(t, "len")}
 		case 1:
-			c := c11cCase{Kind: "metacorrupt"}
+			c := c11cCase{Kind: "metacorrupt", CacheRegions: rapid.Bool().Draw(t, "cacheregions")}
+			if rapid.Bool().Draw(t, "tablelens") {
+				c.Cold = rapid.Bool().Draw(t, "cold")
+				k := rapid.IntRange(1, 2).Draw(t, "ntablelens")
+				for i := 0; i < k; i++ {
+					c.TableLens = append(c.TableLens, rapid.SampledFrom([]int{1, 1, 100, 32764, 32765, 32766, 40000, 70000}).Draw(t, "tablelen"))
+				}
+				if rapid.Bool().Draw(t, "only") {
+					return c
+				}
+			}
 			n := rapid.IntRange(1, 3).Draw(t, "ninfos")
 			for i := 0; i < n; i++ {
 				switch rapid.IntRange(0, 4).Draw(t, "shape") {
